@@ -134,7 +134,7 @@ def run_conv(case, ctx):
             r = cf.interpolate(q)
     if [str(x) for x in r.model_names] != case['names']:
         fail('interpolate changed the model names / order: %r' % list(r.model_names), 'c13:names_changed')
-    if abs(r.central_wavelength.to(u.micron).value - case['wav']) > 1e-14 * case['wav']:
+    if not (abs(r.central_wavelength.to(u.micron).value - case['wav']) <= 1e-14 * case['wav']):
         fail('interpolate changed the wavelength', 'c13:wavelength_changed')
     fv, ev = np.asarray(r.flux.to(u.mJy).value), np.asarray(r.error.to(u.mJy).value)
     if fv.shape != (nm, len(reqs)) or ev.shape != (nm, len(reqs)):
@@ -157,13 +157,13 @@ def run_conv(case, ctx):
             # any evaluation order of a linear interpolant carries a few eps x (|y_lo| + |y_hi|) of absolute rounding, times
             # x / (x_hi - x_lo) <= 21 when table and request went through a unit factor (1 ulp each)
             span = max(case['flux'][m]) if not same else abs(wf) + 0.1 * bracket(aps, case['flux'][m], req)
-            if abs(fv[m][j] - wf) > tol * max(abs(wf), span):
+            if not (abs(fv[m][j] - wf) <= tol * max(abs(wf), span)):
                 fail('request %r AU (%s; table %r AU): flux of %s is %r, %s gives %r' % (
                     req, kind, aps, case['names'][m], fv[m][j],
                     'the tabulated value' if kind == 'on a knot' else ('the largest-aperture value' if req > aps[-1] else 'linear interpolation'),
                     wf), 'c13:flux_interpolation')
             spane = max(case['err'][m]) if not same else abs(we) + 0.1 * bracket(aps, case['err'][m], req)
-            if abs(ev[m][j] - we) > tol * max(abs(we), spane):
+            if not (abs(ev[m][j] - we) <= tol * max(abs(we), spane)):
                 fail('request %r AU (%s): error of %s is %r, expected %r' % (req, kind, case['names'][m], ev[m][j], we),
                      'c13:error_interpolation')
     # the table is usually filled IN PLACE (as the convolution code does): a second call must see the edited table
@@ -183,8 +183,8 @@ def run_conv(case, ctx):
         for j, req in enumerate(reqs):
             wf = om.interp_aperture(aps, [v * 3.5 for v in case['flux'][m_edit]], req)
             we = om.interp_aperture(aps, [v * 0.25 for v in case['err'][m_edit]], req)
-            if abs(f2[m_edit][j] - wf) > 1e-9 * max(abs(wf), 3.5 * max(case['flux'][m_edit])) or \
-                    abs(e2[m_edit][j] - we) > 1e-9 * max(abs(we), max(case['err'][m_edit])):
+            if not (abs(f2[m_edit][j] - wf) <= 1e-9 * max(abs(wf), 3.5 * max(case['flux'][m_edit]))) or \
+                    not (abs(e2[m_edit][j] - we) <= 1e-9 * max(abs(we), max(case['err'][m_edit]))):
                 fail('after editing the table of %s in place, a second interpolate() at %r AU gives %r +- %r, the edited table '
                      'gives %r +- %r' % (case['names'][m_edit], req, f2[m_edit][j], e2[m_edit][j], wf, we), 'c13:stale_after_edit')
         labels.add('second_call_after_in_place_edit')
@@ -272,7 +272,7 @@ def run_sed(case, ctx):
         for p, i in enumerate(idx):
             want = om.interp_aperture(aps, [case['flux'][a][i] for a in range(nap)], req)
             span = max(case['flux'][a][i] for a in range(nap))
-            if abs(out[p][j] - want) > rtol * max(abs(want), span):
+            if not (abs(out[p][j] - want) <= rtol * max(abs(want), span)):
                 fail('SED.interpolate: request %r AU (table %r AU) at %r micron gives %r, expected %r' % (
                     req, aps, case['wav'][i], out[p][j], want), 'c13:sed_interpolation')
     return labels, nontrivial
